@@ -3,7 +3,7 @@
 evidence, revert, and print which checks fire (and which rules)."""
 import json, os, re, subprocess, sys
 VERIF = os.path.dirname(os.path.dirname(os.path.abspath(__file__)))
-patch = sys.argv[1]
+patch = os.path.abspath(sys.argv[1])
 if os.path.isdir(patch):
     patch = os.path.join(patch, 'patch.diff')
 props = [c['property_id'] for c in json.load(open(os.path.join(VERIF, 'MANIFEST.json')))['checks']]
